@@ -16,6 +16,10 @@ Section ModelIx.
 Variable A : Type.
 Variable H : A -> A -> A.
 Variable eqA : A -> A -> bool.
+(* the test in front of TxHashes[hashUsed], as a function of len(TxHashes) and hashUsed: the Go code
+   has `hashUsed >= len` (Nat.leb len used); kept as a variable so that Proofs/MerkleDecoder.v can show
+   what a weaker test (the seeded change `hashUsed > len`) leads to *)
+Variable hguard : nat -> nat -> bool.
 
 Record ist := mk_ist {
   i_bits_used : nat;      (* *bitsUsed *)
@@ -25,7 +29,7 @@ Record ist := mk_ist {
 }.
 
 (* traverseAndExtract over m.PartialMerkleTree.VBits / .TxHashes *)
-Fixpoint traverse_ix (n : N) (vbits : list bool) (hashes : list A) (h : nat) (pos : N) (s : ist)
+Fixpoint traverse_gen (n : N) (vbits : list bool) (hashes : list A) (h : nat) (pos : N) (s : ist)
   : ixres (A * ist) :=
   if (length vbits <=? i_bits_used s)%nat then IxErr              (* if *bitsUsed >= len(VBits) *)
   else
@@ -34,7 +38,7 @@ Fixpoint traverse_ix (n : N) (vbits : list bool) (hashes : list A) (h : nat) (po
     | Some b =>
         let bu := S (i_bits_used s) in                             (* *bitsUsed++ *)
         let leaf (matched_here : bool) :=
-          if (length hashes <=? i_hash_used s)%nat then IxErr      (* if *hashUsed >= len(TxHashes) *)
+          if hguard (length hashes) (i_hash_used s) then IxErr     (* if *hashUsed >= len(TxHashes) *)
           else
             match nth_error hashes (i_hash_used s) with            (* TxHashes[*hashUsed] *)
             | None => IxPanic
@@ -47,12 +51,12 @@ Fixpoint traverse_ix (n : N) (vbits : list bool) (hashes : list A) (h : nat) (po
         | S h' =>
             if negb b then leaf false
             else
-              match traverse_ix n vbits hashes h' (pos * 2) (mk_ist bu (i_hash_used s) (i_match s) (i_bad s)) with
+              match traverse_gen n vbits hashes h' (pos * 2) (mk_ist bu (i_hash_used s) (i_match s) (i_bad s)) with
               | IxErr => IxErr
               | IxPanic => IxPanic
               | IxOk (l, s1) =>
                   if pos * 2 + 1 <? width n (N.of_nat h') then
-                    match traverse_ix n vbits hashes h' (pos * 2 + 1) s1 with
+                    match traverse_gen n vbits hashes h' (pos * 2 + 1) s1 with
                     | IxErr => IxErr
                     | IxPanic => IxPanic
                     | IxOk (r, s2) =>
@@ -64,7 +68,7 @@ Fixpoint traverse_ix (n : N) (vbits : list bool) (hashes : list A) (h : nat) (po
     end.
 
 (* ExtractMatches *)
-Definition extract_ix (n : N) (hashes : list A) (vbits : list bool) : ixres (A * list A) :=
+Definition extract_gen (n : N) (hashes : list A) (vbits : list bool) : ixres (A * list A) :=
   if n =? 0 then IxErr
   else if max_txs <? n then IxErr
   else if n <? lenL hashes then IxErr
@@ -73,7 +77,7 @@ Definition extract_ix (n : N) (hashes : list A) (vbits : list bool) : ixres (A *
     match height_loop 34 n 0 with
     | None => IxErr
     | Some h =>
-        match traverse_ix n vbits hashes (N.to_nat h) 0 (mk_ist 0 0 [] false) with
+        match traverse_gen n vbits hashes (N.to_nat h) 0 (mk_ist 0 0 [] false) with
         | IxErr => IxErr
         | IxPanic => IxPanic
         | IxOk (root, s) =>
@@ -88,6 +92,10 @@ End ModelIx.
 
 Arguments mk_ist {A}. Arguments i_bits_used {A}. Arguments i_hash_used {A}.
 Arguments i_match {A}. Arguments i_bad {A}.
+
+(* the code as it is: if *hashUsed >= len(m.PartialMerkleTree.TxHashes) *)
+Definition traverse_ix (A : Type) (H : A -> A -> A) (eqA : A -> A -> bool) := traverse_gen A H eqA Nat.leb.
+Definition extract_ix (A : Type) (H : A -> A -> A) (eqA : A -> A -> bool) := extract_gen A H eqA Nat.leb.
 
 Definition extract_mb_ix (m : merkle_block) : ixres (bytes * list bytes) :=
   extract_ix bytes node_hash bytes_eqb (mb_count m) (mb_hashes m) (bits_of_bytes (mb_flags m)).
